@@ -636,6 +636,16 @@ func (g *uniqGen) body(md protoreflect.MessageDescriptor, level int) ([]string, 
 		}
 		items = append(items, it)
 	}
+	// text: lists and maps may legally be named more than once
+	if g.dec == 't' && len(items) > 0 && c.Intn(4) == 0 {
+		src := items[c.Intn(len(items))]
+		if src.fld.kind == 'K' && src.fld.cls != 's' {
+			if it, ok := g.field(src.fd, level, false); ok {
+				items = append(items, it)
+				c.Stat("events:t:legal-repeat")
+			}
+		}
+	}
 	// violations
 	if g.inject == 1 && len(items) > 0 && c.Intn(3) == 0 {
 		src := items[c.Intn(len(items))]
